@@ -568,6 +568,22 @@ impl Ctx {
                     ev.insert(k.clone(), x.clone());
                 }
             }
+            "iter_abandon" => {
+                // a traversal that is given up after a few steps (the iterator is dropped half way)
+                let h = op["h"].as_i64().ok_or("h")?;
+                let n = op.get("steps").and_then(|x| x.as_u64()).unwrap_or(1) as usize;
+                let fl = op["flavour"].as_str().unwrap_or("iter").to_string();
+                let e = self.maps.get_mut(&h).ok_or("no such handle")?;
+                let taken = with_map!(&mut e.h, m => match fl.as_str() {
+                    "keys" => m.keys().take(n).count(),
+                    "values" => m.values().take(n).count(),
+                    "iter_mut" => m.iter_mut().take(n).count(),
+                    "into_iter" => m.clone().into_iter().take(n).count(),
+                    _ => m.iter().take(n).count(),
+                });
+                ev.insert("taken".into(), json!(taken));
+                ev.insert("outcome".into(), json!("ok"));
+            }
             "stats" => {
                 let h = op["h"].as_i64().ok_or("h")?;
                 let filling = op.get("filling").and_then(|f| f.as_bool()).unwrap_or(true);
